@@ -244,7 +244,7 @@ def coq_dist(rng, kind, y, sal, opt, ye, M, LP, lead):
     return 'allR [%s]' % '; '.join(parts)
 
 
-def case_dist(rng, tier, kind):
+def _case_dist(rng, tier, kind):
     k0 = kind.split(':')[0]
     lead = lead_shape(rng, cap=8 if k0 == 'bingham' else 125)
     D = int(rng.integers(2, 5)) if k0 != 'bingham' else int(rng.integers(2, 4))
@@ -412,7 +412,7 @@ def coq_mix(rng, name, y, opts, M, trace, lead):
     return 'allR [%s]' % '; '.join(parts)
 
 
-def case_mix(rng, tier, name):
+def _case_mix(rng, tier, name):
     cap = {'cbmm': 4, 'cwmm': 30}.get(name, 40)
     lead = lead_shape(rng, cap=cap)
     K = 2 if name == 'cbmm' else int(rng.integers(2, 4))
@@ -471,7 +471,7 @@ def eval_bcast(rp):
     return None, None, coq, None, int(np.prod(lead)) > 1
 
 
-def case_bcast(rng, tier, name):
+def _case_bcast(rng, tier, name):
     lead = lead_shape(rng, cap={'cbmm': 4}.get(name, 30))
     K = 2 if name == 'cbmm' else int(rng.integers(2, 4))
     D = int(rng.integers(2, 4)) if name == 'cbmm' else int(rng.integers(2, 5))
@@ -493,7 +493,7 @@ def case_bcast(rng, tier, name):
 
 
 # ----------------------------------------------------------------------------- E: bookkeeping vs numpy
-def case_book(rng, tier, i):
+def _case_book(rng, tier, i):
     r = i % 4
     if r == 0:
         shape = tuple(int(v) for v in rng.integers(1, 6, int(rng.integers(1, 6))))
@@ -533,26 +533,65 @@ def case_book(rng, tier, i):
                 kind='bookkeeping')
 
 
+# ----------------------------------------------------------------------------- robust case construction
+def _safe(fn, kind):
+    def wrapped(*a, **k):
+        st = a[0].bit_generator.state if a and isinstance(a[0], np.random.Generator) else None
+        try:
+            return fn(*a, **k)
+        except Exception as e:      # an exception escaping the implementation on a path the predicates do not classify
+            import traceback
+            tb = traceback.format_exc()
+            where = [ln.strip() for ln in tb.splitlines() if '/pb_bss/' in ln][-1:] or ['(harness)']
+            rp = {'fn': 'crash', 'kind': kind, 'rng_state': st, 'args': [int(v) if isinstance(v, (int, np.integer)) else v
+                                                                         for v in (a[1:] if st is not None else a)]}
+            return Case('%s crashed' % kind, coq=None, nontrivial=False, digest_=core.digest(kind, repr(rp)[:300]),
+                        pred_fail='%s: unclassified %s: %s at %s' % (kind, type(e).__name__, str(e)[:200], where[0][:160]),
+                        key='crash:%s:%s' % (kind, type(e).__name__), sample={'name': kind + ' crashed'}, replay=rp, kind='crash')
+    return wrapped
+
+
+def _replay_crash(rp):
+    fn = globals()['_case_' + rp['kind']]
+    if rp.get('rng_state') is not None:
+        g = np.random.default_rng(0)
+        g.bit_generator.state = rp['rng_state']
+        args = [g] + list(rp['args'])
+    else:
+        args = list(rp['args'])
+    try:
+        c = fn(*args)
+        return c.pred_fail
+    except Exception as e:          # noqa
+        return '%s: unclassified %s: %s' % (rp['kind'], type(e).__name__, str(e)[:200])
+
+
+case_dist = _safe(_case_dist, 'dist')
+case_mix = _safe(_case_mix, 'mix')
+case_bcast = _safe(_case_bcast, 'bcast')
+case_book = _safe(_case_book, 'book')
+
+
 # -----------------------------------------------------------------------------
 def cases(rng, tier):
     q = tier == 'quick'
     out = []
-    for rep in range(5 if q else 50):
+    for rep in range(10 if q else 100):
         for kind in DISTS:
-            if kind == 'bingham' and rep >= (2 if q else 15):
+            if kind == 'bingham' and rep >= (3 if q else 30):
                 continue
             out.append(case_dist(rng, tier, kind))
-    for rep in range(6 if q else 60):
+    for rep in range(10 if q else 100):
         for name in MIX:
-            if name == 'cbmm' and rep >= (2 if q else 12):
+            if name == 'cbmm' and rep >= (2 if q else 20):
                 continue
             out.append(case_mix(rng, tier, name))
-    for rep in range(2 if q else 20):
+    for rep in range(4 if q else 40):
         for name in MIX:
-            if name == 'cbmm' and rep >= (1 if q else 6):
+            if name == 'cbmm' and rep >= (1 if q else 10):
                 continue
             out.append(case_bcast(rng, tier, name))
-    for i in range(16 if q else 160):
+    for i in range(32 if q else 320):
         out.append(case_book(rng, tier, i))
     return out
 
@@ -574,6 +613,8 @@ def search(rng, tier, hints):
 def replay(payload):
     rp = payload['replay']
     fn = rp['fn']
+    if fn == 'crash':
+        return _replay_crash(rp)
     if fn == 'dist':
         return eval_dist(rp)[0]
     if fn == 'mix':
